@@ -338,6 +338,61 @@ BASE_TRUST = [
 ]
 
 
+def dispatch_extra(work, coverage, tier="quick"):
+    """Run the dispatch harness (c11: ServeHTTP over the recorded lookup table) against the Dispatch
+    model and specification; every disagreement is returned as a failing input.  Used by the checks
+    of properties whose statement includes what ServeHTTP does with the matcher's answer (C08, C09)."""
+    out = []
+    ok, lg = coq_build("Dispatch", targets=["Corr.vo"])
+    hb, hl = build_harness("c11")
+    if not ok or hb is None:
+        return [("dispatch half: model or harness does not build: " + (lg if not ok else hl)[-800:], {"no_input": True, "kind": "build"})]
+    d = os.path.join(work, "cases_dispatch")
+    if os.path.isdir(d):
+        shutil.rmtree(d)
+    rc, o = sh([hb, "out=" + d, "shards=%d" % NCPU, "tier=quick"], cwd=work, env=go_env(), timeout=1500)
+    if rc != 0:
+        return [("dispatch harness failed: " + o[-800:], {})]
+    res, errs = eval_cases(d, "Dispatch")
+    for k, e in errs:
+        out.append(("dispatch case evaluation failed (shard %d): %s" % (k, e[-400:]), {}))
+    bad = list(dict.fromkeys(res.get("mism", []) + res.get("viol", [])))
+    attributed = set()
+    for name, idxs in res.items():
+        if name.startswith("known_"):
+            attributed.update(idxs)
+    bad = [c for c in bad if c not in attributed or c in res.get("mism", [])]
+    for c in bad[:10]:
+        out.append(("dispatch: " + human_case(d, *c)[:700], {}))
+    try:
+        st = json.load(open(os.path.join(d, "stats.json")))
+        coverage["dispatch_evaluations"] = int(st.get("evaluations", 0))
+        coverage["dispatch_mismatches"] = len(res.get("mism", []))
+        coverage["dispatch_spec_failures"] = len(res.get("viol", []))
+    except Exception:
+        pass
+    return out
+
+
+def sync_skeleton_extra(coverage):
+    """Tie A of the transaction protocol (C04/C05): regenerate coq/Txn/GenSync.v from the sources and
+    re-check the Examples that compare it with the expected skeletons (exactly one Load of the tree per
+    read entry point, lock before load, store before unlock, ...)."""
+    import C04
+    with Lock("area.Txn.run"):
+        ok, lg = C04.run_syncgen()
+        if not ok:
+            return [("tie A (syncgen): " + lg[-1500:], {"no_input": True, "kind": "generator"})]
+        okb, lgb = coq_build("Txn")
+        o1 = props_obligations("Txn", "Props_C05.v", lock=False)
+    coverage["sync_skeleton_obligations"] = "%d/%d" % (len(o1["discharged"]), len(o1["theorems"]))
+    if not okb or not o1["ok"]:
+        return [("tie A: the synchronisation skeleton regenerated from the sources no longer equals the expected one "
+                 "(e.g. a read entry point loads the published tree more than once, so one request can be served from two "
+                 "different states):\n" + (lgb if not okb else o1["log"])[-1500:], {"no_input": True, "kind": "proof"})]
+    return []
+
+
 class TieCheck:
     """Generic check: proof obligations (Coq) + correspondence (impl vs model) +
     spec oracle (impl vs spec) on harness-generated cases.
@@ -540,6 +595,10 @@ class TieCheck:
 
         # 3. optional runtime experiments
         for desc, payload in self.extra(tier, seed, work, coverage):
+            if isinstance(payload, dict) and payload.get("no_input"):
+                # an obligation that no longer checks, without a concrete failing input
+                problems.append((payload.get("kind", "obligation"), desc))
+                continue
             failing.append(desc if isinstance(desc, str) else json.dumps(desc))
             problems.append(("experiment", desc))
 
